@@ -661,10 +661,15 @@ def check_flip_centered(ctx: Ctx) -> None:
     for w in wh:
         c = w.value.args[0]
         if isinstance(c, ast.Compare):
-            sides_ = [c.left, c.comparators[0]]
-            idx = [any(isinstance(n_, ast.Name) and n_.id == "input_indices" for n_ in ast.walk(x_)) for x_ in sides_]
-            has_bound = [bool({"upper_bounds", "lower_bounds"} & names_in(x_)) for x_ in sides_]
-            ok = all(i_ for i_, hb in zip(idx, has_bound) if hb) and any(has_bound)
+            # decided on the unfolded comparison: the restriction to the differentiated components may have been
+            # applied to the local holding the bounds (`ub = ub[input_indices]`) before the comparison
+            alts = [a_ for a_ in (unfolded(f, w, get=lambda st: st.value.args[0]) or []) if isinstance(a_, ast.Compare)] or [c]
+            ok = True
+            for a_ in alts:
+                sides_ = [a_.left, a_.comparators[0]]
+                idx = [any(isinstance(n_, ast.Name) and n_.id == "input_indices" for n_ in ast.walk(x_)) for x_ in sides_]
+                has_bound = [any(b_ in norm_stmt(x_, 2000) for b_ in ("upper_bounds", "lower_bounds")) for x_ in sides_]
+                ok = ok and all(i_ for i_, hb in zip(idx, has_bound) if hb) and any(has_bound)
             ctx.ob("16.1-kinds", con, ok, "the differentiated components (one per perturbation) are compared with the bounds of ALL the components: for a subset of components the shapes do not match", node=w, stmt=f"bounds of the differentiated components in `{norm_stmt(c, 60)}`")
 
 
@@ -710,6 +715,24 @@ def check_flip(ctx: Ctx) -> None:
 DA = "utils/derivatives/derivatives_approx.py"
 
 
+def _step_signs(e: ast.AST, sign: int = 1) -> list[int]:
+    """The signs with which the terms that mention the step enter the sum ``e`` (component-wise: ``a[...]`` is ``a``):
+    [1] for ``x + step`` / ``step + x`` / ``x - -step``, [-1] for ``x - step`` / ``x + (-step)`` / ``x + -1 * step``."""
+    if isinstance(e, ast.BinOp) and isinstance(e.op, (ast.Add, ast.Sub)):
+        return _step_signs(e.left, sign) + _step_signs(e.right, sign if isinstance(e.op, ast.Add) else -sign)
+    if isinstance(e, ast.UnaryOp) and isinstance(e.op, (ast.USub, ast.UAdd)):
+        return _step_signs(e.operand, -sign if isinstance(e.op, ast.USub) else sign)
+    if isinstance(e, ast.BinOp) and isinstance(e.op, ast.Mult):
+        for k_, o_ in ((e.left, e.right), (e.right, e.left)):
+            neg = isinstance(k_, ast.UnaryOp) and isinstance(k_.op, ast.USub)
+            c_ = const_value(k_.operand if neg else k_, None)
+            if isinstance(c_, (int, float)) and not isinstance(c_, bool) and c_ != 0:
+                return _step_signs(o_, sign * (1 if (c_ > 0) != neg else -1))
+    if isinstance(e, ast.Subscript):
+        return _step_signs(e.value, sign)
+    return [sign] if "step" in norm_stmt(e, 400) else []
+
+
 def check_bound_sources(ctx: Ctx) -> None:
     """16.4: the forward point is compared with the UPPER bounds and the backward point with the LOWER bounds, both
     normalised iff the approximator works on normalised inputs (decided on the unfolded comparison, under each value
@@ -734,10 +757,10 @@ def check_bound_sources(ctx: Ctx) -> None:
                     bside = "r" if "get_upper_bounds" in sides["r"] or "get_lower_bounds" in sides["r"] else "l"
                     btxt = sides[bside]
                     point = r_ if bside == "l" else l_
-                    moves = [n_.op for n_ in ast.walk(point) if isinstance(n_, ast.BinOp) and isinstance(n_.op, (ast.Add, ast.Sub)) and "step" in norm_stmt(n_.right)]
+                    moves = _step_signs(point)
                     if len(moves) != 1:
                         continue  # not a comparison of a perturbed point (rule 16.4-flip decides on its form)
-                    point_greater = isinstance(moves[0], ast.Add)
+                    point_greater = moves[0] > 0
                     want, other = ("get_upper_bounds", "get_lower_bounds") if point_greater else ("get_lower_bounds", "get_upper_bounds")
                     if want not in btxt or other in btxt:
                         ok = False
@@ -749,12 +772,188 @@ def check_bound_sources(ctx: Ctx) -> None:
     ctx.floor("16.4-bound-sources", 6)
 
 
+_SIMPLE = (ast.Assign, ast.AugAssign, ast.AnnAssign, ast.Expr, ast.Return)
+
+
+def _blocks(func: ast.AST):
+    """Every statement list of the function (not those of nested scopes)."""
+    todo = [func]
+    while todo:
+        n = todo.pop()
+        for fld in ("body", "orelse", "finalbody"):
+            b = getattr(n, fld, None)
+            if isinstance(b, list) and b and isinstance(b[0], ast.stmt):
+                yield b
+                todo.extend(s for s in b if not isinstance(s, (ast.FunctionDef, ast.AsyncFunctionDef, ast.ClassDef)))
+        todo.extend(getattr(n, "handlers", None) or [])
+
+
+def _unconditional_walruses(e: ast.AST):
+    """The ``x := v`` that the evaluation of ``e`` always executes, in evaluation order."""
+    if isinstance(e, (ast.Lambda, ast.ListComp, ast.SetComp, ast.DictComp, ast.GeneratorExp, ast.IfExp)):
+        if isinstance(e, ast.IfExp):
+            yield from _unconditional_walruses(e.test)
+        return
+    if isinstance(e, ast.BoolOp):
+        yield from _unconditional_walruses(e.values[0])
+        return
+    if isinstance(e, ast.Compare) and len(e.ops) > 1:
+        yield from _unconditional_walruses(e.left)
+        yield from _unconditional_walruses(e.comparators[0])
+        return
+    for c in ast.iter_child_nodes(e):
+        yield from _unconditional_walruses(c)
+    if isinstance(e, ast.NamedExpr) and isinstance(e.target, ast.Name):
+        yield e
+
+
+def _walrus_hoisted(func: ast.AST) -> ast.AST:
+    """A copy of the function in which ``stmt(... (x := v) ...)`` is ``x = v; stmt(... x ...)`` when the simple
+    statement always evaluates the walrus and does not read ``x`` before it (same bindings, same values)."""
+    import copy
+
+    if not any(isinstance(n, ast.NamedExpr) for n in ast.walk(func)):
+        return func
+    new = copy.deepcopy(func)
+    for block in _blocks(new):
+        k = 0
+        while k < len(block):
+            st = block[k]
+            k += 1
+            if not isinstance(st, _SIMPLE):
+                continue
+            for w in list(_unconditional_walruses(st)):
+                x = w.target.id
+                pos = (w.lineno, w.col_offset)
+                stores = [n for n in ast.walk(st) if isinstance(n, ast.Name) and n.id == x and isinstance(n.ctx, ast.Store) and n is not w.target]
+                early = [n for n in ast.walk(st) if isinstance(n, ast.Name) and n.id == x and isinstance(n.ctx, ast.Load) and (n.lineno, n.col_offset) < pos]
+                if stores or early:
+                    continue
+                hoisted = ast.copy_location(ast.Assign(targets=[ast.Name(id=x, ctx=ast.Store())], value=w.value, lineno=st.lineno), st)
+                ast.fix_missing_locations(hoisted)
+
+                class R(ast.NodeTransformer):
+                    def visit_NamedExpr(self, n):  # noqa: N802
+                        if n is w:
+                            return ast.copy_location(ast.Name(id=x, ctx=ast.Load()), n)
+                        return self.generic_visit(n)
+
+                R().visit(st)
+                block.insert(k - 1, hoisted)
+                k += 1
+    return new
+
+
+def _snapshot_as_cursor(func: ast.AST) -> ast.AST:
+    """A copy of the function in which the loop body ``...; lo = c; ...; c += n; <uses of lo, none of c>`` is written
+    ``...; ...; <uses of c>; c += n``: the start of the window saved in a local that nothing else writes, the cursor
+    advanced at once and not read again in the iteration, is the cursor advanced at the end of the iteration."""
+    import copy
+
+    new = copy.deepcopy(func)
+    changed = False
+    for loop in [n for n in ast.walk(new) if isinstance(n, ast.For)]:
+        body = loop.body
+        for i, cp in enumerate(body):
+            if not (isinstance(cp, ast.Assign) and len(cp.targets) == 1 and isinstance(cp.targets[0], ast.Name) and isinstance(cp.value, ast.Name)):
+                continue
+            lo, c = cp.targets[0].id, cp.value.id
+            js = [j for j in range(i + 1, len(body)) if (u := as_update(body[j])) and isinstance(u[0], ast.Name) and u[0].id == c and isinstance(u[1], ast.Add)]
+            if len(js) != 1 or lo == c:
+                continue
+            j = js[0]
+            amount = as_update(body[j])[2]
+            rest = body[j + 1 :]
+
+            def names(stmts, ctx_, ids):
+                return [n for s in stmts for n in ast.walk(s) if isinstance(n, ast.Name) and isinstance(n.ctx, ctx_) and n.id in ids]
+
+            everywhere = [n for n in ast.walk(new) if isinstance(n, ast.Name) and n.id == lo]
+            inside = {id(n) for s in body[i + 1 :] for n in ast.walk(s) if isinstance(n, ast.Name) and n.id == lo}
+            if (
+                names(body[i + 1 : j], ast.Store, {lo, c})
+                or names(rest, (ast.Load, ast.Store, ast.Del), {c})
+                or names(rest, (ast.Store, ast.Del), {lo} | names_in(amount))
+                or c in names_in(amount)
+                or lo in names_in(amount)
+                or any(id(n) not in inside and n is not cp.targets[0] for n in everywhere)
+                or any(isinstance(n, (ast.Continue, ast.Break, ast.Return, ast.Lambda, ast.FunctionDef, ast.Yield, ast.YieldFrom)) for s in body[i:] for n in ast.walk(s))
+            ):
+                continue
+            renamed = [_subst(s, {lo: ast.Name(id=c, ctx=ast.Load())}) for s in (*body[i + 1 : j], *rest)]
+            loop.body = [*body[:i], *renamed, body[j]]
+            changed = True
+            break
+    return ast.fix_missing_locations(new) if changed else func
+
+
+_MUTATORS = {"append", "extend", "insert", "pop", "remove", "clear", "sort", "reverse", "update", "add", "discard", "setdefault", "popitem"}
+
+
+def _root(e: ast.AST):
+    while isinstance(e, (ast.Subscript, ast.Attribute)):
+        e = e.value
+    return e.id if isinstance(e, ast.Name) else None
+
+
+def _mutated_in_place(func: ast.AST) -> set:
+    """Roots of the objects the function changes in place (``a.append(x)``, ``a[i] = x``, ``a[i] += x``, ``del a[i]``)."""
+    out = set()
+    for n in ast.walk(func):
+        if isinstance(n, ast.Call) and isinstance(n.func, ast.Attribute) and n.func.attr in _MUTATORS:
+            out.add(_root(n.func.value))
+        elif isinstance(n, (ast.Subscript, ast.Attribute)) and isinstance(n.ctx, (ast.Store, ast.Del)):
+            out.add(_root(n.value))
+    return out - {None}
+
+
+def _read_through_locals(func: ast.AST, e: ast.AST) -> set:
+    """The names ``e`` reads, and those read by the definitions of the locals among them."""
+    seen = set(names_in(e))
+    todo = list(seen)
+    while todo:
+        x = todo.pop()
+        for s in ast.walk(func):
+            v = None
+            if isinstance(s, ast.Assign) and any(isinstance(t, ast.Name) and t.id == x for t in s.targets):
+                v = s.value
+            elif isinstance(s, ast.NamedExpr) and isinstance(s.target, ast.Name) and s.target.id == x:
+                v = s.value
+            for y in names_in(v) if v is not None else ():
+                if y not in seen:
+                    seen.add(y)
+                    todo.append(y)
+    return seen
+
+
+def _counted(e: ast.AST) -> ast.AST:
+    """``len(<sequence built from n items>)`` reduced to ``n``: ``len(range(n))``, ``len(list(range(n)))``,
+    ``len([f(i) for i in range(n)])`` are ``n`` (a size: not negative); ``len(list(s))`` is ``len(s)``."""
+    if not (isinstance(e, ast.Call) and isinstance(e.func, ast.Name) and e.func.id == "len" and len(e.args) == 1 and not e.keywords):
+        return e
+    s = e.args[0]
+    while True:
+        if isinstance(s, ast.Call) and isinstance(s.func, ast.Name) and s.func.id in ("list", "tuple") and len(s.args) == 1 and not s.keywords and not isinstance(s.args[0], ast.Starred):
+            s = s.args[0]
+        elif isinstance(s, (ast.ListComp, ast.GeneratorExp)) and len(s.generators) == 1 and not s.generators[0].ifs and not s.generators[0].is_async:
+            s = s.generators[0].iter
+        else:
+            break
+    if isinstance(s, ast.Call) and isinstance(s.func, ast.Name) and s.func.id in ("range", "arange") and not s.keywords and not any(isinstance(a, ast.Starred) for a in s.args):
+        if len(s.args) == 1:
+            return s.args[0]
+        if len(s.args) == 2 and const_value(s.args[0], None) == 0 and not isinstance(const_value(s.args[0], None), bool):
+            return s.args[1]
+    return e if s is e.args[0] else ast.copy_location(ast.Call(func=e.func, args=[s], keywords=[]), e)
+
+
 def check_variable_indices(ctx: Ctx) -> None:
     """16.5: check_jacobian(indices=...) numbers the components of the flat input vector: the offset of a variable is
     the sum of the FULL sizes of the variables before it, whatever subset of their components is selected."""
     from gv.cursor import check_cursor_loops
 
-    f = ctx.index.method(DA, "DisciplineJacApprox", "_compute_variable_indices")
+    # spellings the cursor analysis does not read, rewritten into the ones it reads (both rewritings keep the values)
+    f = _snapshot_as_cursor(_walrus_hoisted(ctx.index.method(DA, "DisciplineJacApprox", "_compute_variable_indices")))
     con = cname(DA, "DisciplineJacApprox", "_compute_variable_indices")
     check_cursor_loops(ctx, "16.5-indices", con, f, min_loops=1, force={"variable_position"})
     loops = [s_ for s_ in stmts_of(f) if isinstance(s_, ast.For)]
@@ -763,7 +962,11 @@ def check_variable_indices(ctx: Ctx) -> None:
     incs = [s_ for s_ in ast.walk(lp) if as_update(s_) and isinstance(as_update(s_)[1], ast.Add) and isinstance(as_update(s_)[0], ast.Name)]
     ctx.need(len(incs) == 1, "_compute_variable_indices: the advance of the offset was not found")
     sizes_par = f.args.args[-1].arg if f.args.args else "variable_sizes"
-    alts = unfolded(f, as_update(incs[0])[2]) or [as_update(incs[0])[2]]
+    amount = as_update(incs[0])[2]
+    alts = unfolded(f, amount) or [amount]
+    if not (_read_through_locals(f, amount) & _mutated_in_place(f)):
+        # the length of a sequence built from n items, and not changed since, is n
+        alts = [_counted(a_) for a_ in alts]
     ok = all(isinstance(a_, ast.Subscript) and dotted(a_.value) == sizes_par and dotted(a_.slice) == dotted(lp.target) for a_ in alts)
     ctx.ob("16.5-indices", con, ok, f"the offset must advance by the full size of the variable (`{sizes_par}[{dotted(lp.target)}]`), not by the number of selected components: the components of the following variables are otherwise numbered too low and other components are differentiated", node=incs[0], stmt="offset advances by the full size of the variable")
 
@@ -808,7 +1011,13 @@ def check_zero_tolerance(ctx: Ctx) -> None:
                         calls.append(c)
                         break
         ctx.need(calls, f"{mname}: no call of self.approximator.{sorted(routines)[0]} found")
-        withs = [w for w in ast.walk(g) if isinstance(w, ast.With) and any(isinstance(it.context_expr, ast.Call) and last_attr(it.context_expr) in ("__set_zero_cache_tol", "_DisciplineJacApprox__set_zero_cache_tol") for it in w.items)]
+        def zero_tol(e):
+            """The context expression is, on every path, a call of the zero-tolerance context manager (possibly
+            created before the ``with`` and held in a local: nothing runs before it is entered)."""
+            alts = sv.exprs(e) if sv.cfg.has(e) else [e]
+            return bool(alts) and all(isinstance(a_, ast.Call) and last_attr(a_) in ("__set_zero_cache_tol", "_DisciplineJacApprox__set_zero_cache_tol") for a_ in alts)
+
+        withs = [w for w in ast.walk(g) if isinstance(w, ast.With) and any(zero_tol(it.context_expr) for it in w.items)]
         for c in calls:
             n_calls += 1
             ok = any(any(sub is c for sub in ast.walk(w)) for w in withs)
